@@ -56,8 +56,18 @@ pub trait VMaxFilterMap<T>: vstd::view::View<V = Seq<T>> {
             forall|i: int| 0 <= i < self@.len() ==> produced_below(f, #[trigger] self@[i], r),
             // the result is one of the values f produced
             r is Some ==> exists|i: int| 0 <= i < self@.len() && #[trigger] f.ensures((&self@[i],), r);
+    /// the same for `.count()`: how many elements `f` yields a value for (at most all of them; 0 if `f` yields none)
+    fn vcount_filter_map<F: Fn(&T) -> Option<usize>>(&self, f: F) -> (r: usize)
+        requires forall|i: int| 0 <= i < self@.len() ==> #[trigger] f.requires((&self@[i],)),
+        ensures
+            r <= self@.len(),
+            (forall|i: int| 0 <= i < self@.len() ==> #[trigger] f.ensures((&self@[i],), None)) ==> r == 0,
+            (forall|i: int| 0 <= i < self@.len() ==> !(#[trigger] f.ensures((&self@[i],), None))) ==> r == self@.len();
 }
 impl<T> VMaxFilterMap<T> for Vec<T> {
+    #[verifier::external_body]
+    fn vcount_filter_map<F: Fn(&T) -> Option<usize>>(&self, f: F) -> (r: usize)
+    { self.iter().filter_map(f).count() }
     #[verifier::external_body]
     fn vmax_filter_map<F: Fn(&T) -> Option<usize>>(&self, f: F) -> (r: Option<usize>)
     { self.iter().filter_map(f).max() }
@@ -119,7 +129,7 @@ pub mod file_spec {
     //@ span src/parameters/file_spec.rs impl FileSpec / fn collision_free_infix_for_rotated_file
     //@   tail
     //@   rename choose_infix
-    //@   rule R13 1
+    //@   rule R13 *
     //@   rule R14 1
     //@   rule R15 1
     //@   rule R3 *
